@@ -47,6 +47,17 @@ def extract_item(repo_rel, item_path, spec_lines, opts, unit, verus=True):
         src = open(p).read()
     except FileNotFoundError:
         raise vlib.Inconclusive("LOST-ANCHOR unit=%s file=%s" % (unit.id, repo_rel))
+    if item_path.startswith("const "):
+        # `[pub] const NAME: T = <expr>;` pasted verbatim (visibility kept)
+        name = item_path.split()[1]
+        ms = list(re.finditer(r"(?m)^[ \t]*((?:pub(?:\([a-z:]+\))?[ \t]+)?const[ \t]+%s[ \t]*:[^;]*;)" % re.escape(name), src))
+        if len(ms) != 1:
+            raise vlib.Inconclusive("LOST-ANCHOR unit=%s item=%s (found %d times)" % (unit.id, item_path, len(ms)))
+        class _C:  # minimal item record
+            pass
+        it = _C()
+        it.name = name
+        return ms[0].group(1), "", it
     try:
         it = rustscan.locate(src, item_path)
     except rustscan.AnchorError as e:
@@ -92,7 +103,7 @@ def build_file(unit, vspec, verus=True):
             out.append(open(os.path.join(unit.dir, m.group(1))).read())
             i += 1
             continue
-        m = re.match(r"\s*//@ extract (\S+) ((?:struct |enum |trait |impl (?:\S+ for )?)?\S+)(.*)", l)
+        m = re.match(r"\s*//@ extract (\S+) ((?:struct |enum |trait |const |impl (?:\S+ for )?)?\S+)(.*)", l)
         if m:
             opts = dict(re.findall(r"(\w+)=(\S+)", m.group(3)))
             spec_lines = []
